@@ -148,6 +148,16 @@ def standard(driver, argfn, unwind=12, defs=(), timeout=120):
     return rep
 
 
+def battery(driver, args, timeout=300):
+    """unit.replay recipe for units whose counterexample has no direct native form (ghost models, single steps): the driver's
+    small-scope exhaustive search for that function runs on the real library; a failing input it finds is a real one, but it is
+    NOT the verifier's counterexample - the replay file says so."""
+    def rep(r, o, work):
+        return {'concretisation': 'inputs not taken from the trace (the unit verifies a step / ghost model): native small-scope search "%s" run on the real library instead' % ' '.join(str(a) for a in args),
+                'native': run_native(driver, args, work, timeout=timeout)}
+    return rep
+
+
 def hexs(bs):
     return ''.join('%02x' % (b & 255) for b in bs) or '-'
 
